@@ -145,6 +145,12 @@ func cmdCheck(args []string) int {
 	solverCount := map[string]int{}
 	var solverMs int64
 	var samples []interface{}
+	type sampleCand struct {
+		prio int
+		m    map[string]interface{}
+	}
+	var sampleCands []sampleCand
+	sampleKinds := map[string]int{}
 	var funcs []interface{}
 	var notProved []string
 	var unsupported []string
@@ -203,7 +209,10 @@ func cmdCheck(args []string) int {
 			u := r.unit
 			fe := map[string]interface{}{"function": r.Func, "ssa_hash": r.SSAHash, "obligations": len(r.Obligations),
 				"inlined": r.Inlined, "contracts_and_externals_used": r.SpecsUsed, "vacuity": r.Vacuity,
-				"solver_ms": r.SolverMs, "script_lines": r.ScriptLines, "kept_auto_invariants": r.KeptAuto, "unreachable_return_points": r.UnreachableReturns}
+				"solver_ms": r.SolverMs, "script_lines": r.ScriptLines, "kept_auto_invariants": r.KeptAuto, "unreachable_return_points": r.UnreachableReturns, "postconditions_with_unsatisfiable_antecedent": r.DeadPosts}
+			for _, dp := range r.DeadPosts {
+				fmt.Printf("VACUITY-WARNING %s: the antecedent of postcondition %q cannot hold at any return point under the assumed contracts\n", r.Func, dp)
+			}
 			for _, ur := range r.UnreachableReturns {
 				fmt.Printf("VACUITY-WARNING %s: return point %s is unreachable under the assumed contracts\n", r.Func, ur)
 			}
@@ -241,9 +250,18 @@ func cmdCheck(args []string) int {
 					discharged++
 					solverCount[o.Solver]++
 					newBase[o.Name] = "discharged"
-					if len(samples) < 6 && o.Solver != "trivial" {
-						samples = append(samples, map[string]interface{}{"obligation": o.Name, "kind": o.Kind, "pos": o.Pos,
-							"result": "unsat", "solver": o.Solver, "ms": o.Ms, "goal": clip(o.obl.Goal.S, 400)})
+					if o.Solver != "trivial" {
+						// samples: one or two obligations of each interesting kind, postconditions and invariants first
+						prio := map[string]int{"post": 0, "inv-step": 1, "pre": 2, "index": 3, "slice": 3, "order-indep": 0, "lock-balance": 2, "inv-init": 4, "nil-deref": 5, "frame": 6}
+						pr, ok := prio[o.Kind]
+						if !ok {
+							pr = 5
+						}
+						if sampleKinds[o.Kind] < 2 {
+							sampleKinds[o.Kind]++
+							sampleCands = append(sampleCands, sampleCand{pr, map[string]interface{}{"obligation": o.Name, "kind": o.Kind, "pos": o.Pos,
+								"result": "unsat", "solver": o.Solver, "ms": o.Ms, "goal": clip(o.obl.Goal.S, 400)}})
+						}
 					}
 				case "refuted":
 					if what, ok := known[o.Name]; ok {
@@ -281,6 +299,13 @@ func cmdCheck(args []string) int {
 				}
 			}
 		}
+	}
+	sort.SliceStable(sampleCands, func(i, j int) bool { return sampleCands[i].prio < sampleCands[j].prio })
+	for i, sc := range sampleCands {
+		if i >= 8 {
+			break
+		}
+		samples = append(samples, sc.m)
 	}
 	// built-in structural checks
 	var extraEvidence []interface{}
